@@ -215,7 +215,8 @@ Inductive DecCase (h : hst) : list N -> ev -> list N -> Prop :=
 | DC17 d : DecCase h [17; d] (EAdvance d) []
 | DC18 j t : nth_error (fired_sorted (timers (hs h))) (n2n j) = Some t -> DecCase h [18; j] (ETimerCb t) []
 | DC19 : DecCase h [19] EGet (enc_keys (map fst (kmap (hs h))))
-| DC21 c : nz c = true -> DecCase h [21; c] (ECancelRoot (n2n c)) [].
+| DC21 c : nz c = true -> DecCase h [21; c] (ECancelRoot (n2n c)) []
+| DC22 m : DecCase h [22; m] (ESetNil (n2n m)) [].
 
 Lemma dec_case h e ev rets : dec h e = Some (ev, rets) -> DecCase h e ev rets.
 Proof.
